@@ -199,6 +199,8 @@ func checkC01(c *Ctx) {
 	c.Rule(V1, "second barrier over the agreed list: members, topic, count", 3)
 	c.Rule(N1, "first-level count Threshold+1 in Sign; RBC size = admitted participants", 1)
 	c.Rule(W1, "silent mode wiring", 2)
+	c.Rule("C01.O3", "the signing instance's share data is loaded after Init", 1)
+	ruleShareAfterInit(c, t)
 	// ------------------------------------------------------------------ O1
 	nStart := 0
 	for _, name := range []string{"KeyGen", "Sign"} {
@@ -411,4 +413,49 @@ func enclosingCont(t *thrModel, fn *ssa.Function) *ssa.Function {
 		}
 	}
 	return nil
+}
+
+// ruleShareAfterInit (C01.O3): a backend's Init (re)starts the instance — the built-in backends reset
+// their key material and learn the party list there — so a signing instance must have its share data
+// loaded AFTER Init (and before it starts signing): for every Init invoked on a Signer there is a
+// SetShareData on the same instance that Init dominates.  Loading only before Init leaves BLS without a
+// key (Sign panics) and PS without its public-key table.
+func ruleShareAfterInit(c *Ctx, t *thrModel) {
+	const O3 = "C01.O3"
+	inits := invokesOf(t.fns, "Init")
+	sds := invokesOf(t.fns, "SetShareData")
+	n := 0
+	for _, in := range inits {
+		recvT := in.Common().Value.Type()
+		// only instances that have share data to load (Signer), not key generators
+		it, ok := recvT.Underlying().(*types.Interface)
+		if !ok {
+			continue
+		}
+		hasSD := false
+		for i := 0; i < it.NumMethods(); i++ {
+			if it.Method(i).Name() == "SetShareData" {
+				hasSD = true
+			}
+		}
+		if !hasSD {
+			continue
+		}
+		n++
+		inst := resultOf(in.Common().Value)
+		ok2 := false
+		for _, sd := range sds {
+			if resultOf(sd.Common().Value) != inst && !sameValue(resultOf(sd.Common().Value), inst) {
+				continue
+			}
+			if instrDominates(in.(ssa.Instruction), sd.(ssa.Instruction)) {
+				ok2 = true
+			}
+		}
+		c.Check(ok2, O3, FuncName(in.Parent()), "SetShareData after Init", t.m.Pos(in.Pos()), "Init dominates a SetShareData on the same instance",
+			"the signing instance is initialised after its share data was loaded and nothing loads it again: Init resets the built-in backends' key material (BLS: sk = nil, Sign panics; PS: the public-key table is built from the parties Init sets), so every orchestrated signing session fails")
+	}
+	if n == 0 {
+		c.Bad(O3, "threshold", "Init of a signing instance", "-", "no Init call on a Signer found")
+	}
 }
